@@ -322,6 +322,13 @@ func (m *Machine) sprintf(fr *frame, format string, args []value, lenient bool) 
 		}
 		arg := args[argi]
 		argi++
+		if nat, ok := nativeBasic(arg); ok && !m.hasFmtMethod(arg, verb) {
+			out = strCat(out, fmt.Sprintf("%"+flags+string(verb), nat))
+			if verb == 'w' {
+				wrapped = append(wrapped, arg)
+			}
+			continue
+		}
 		if strings.Trim(flags, "+#") != "" && !lenient {
 			unsupported("format flags %q", flags)
 		}
@@ -477,4 +484,40 @@ func (m *Machine) symFrexp(x *Term) value {
 		expT = tt.Ite(c, e, expT)
 	}
 	return tuple{fromTerm(tt.FPFromBits(fracBits), types.Typ[types.Float64]), fromTerm(expT, types.Typ[types.Int])}
+}
+
+// nativeBasic returns the Go value of a concrete basic interpreter value.
+func nativeBasic(arg value) (interface{}, bool) {
+	v := arg
+	if it, ok := arg.(iface); ok {
+		if it.t == nil {
+			return nil, false
+		}
+		v = it.v
+	}
+	switch v.(type) {
+	case string, bool, int, int8, int16, int32, int64, uint, uint8, uint16, uint32, uint64, uintptr, float32, float64:
+		return v, true
+	}
+	return nil, false
+}
+
+func (m *Machine) hasFmtMethod(arg value, verb byte) bool {
+	it, ok := arg.(iface)
+	if !ok || it.t == nil {
+		return false
+	}
+	if _, basic := it.t.(*types.Basic); basic {
+		return false
+	}
+	switch verb {
+	case 'v', 's', 'q', 'w':
+		if f := m.findMethod(it.t, "Error"); f != nil && len(f.Params) == 1 {
+			return true
+		}
+		if f := m.findMethod(it.t, "String"); f != nil && len(f.Params) == 1 {
+			return true
+		}
+	}
+	return false
 }
